@@ -1,8 +1,22 @@
-"""C13 — pool shutdown and iv_thread lifetime: drain, paired hooks, join, release."""
-from ..core import (names_of, same_value, AnalysisBroken, Inliner, canon, strip, last_member, must_pass, relpath, norm_cond, walk, forward)
+"""C13 — pool shutdown and iv_thread lifetime: drain, paired hooks, join, release.
+
+All rules are evaluated in *calling contexts* (entry points of the library -- exported functions, installed handlers,
+thread bodies, key destructors -- with every static helper inlined) and anchored on roles and sites, never on the name
+of a static function or of a variable:
+  worker death      = the site that decrements work_pool_priv.started_threads
+  worker birth      = the site that increments it / the call of iv_thread_create
+  thread body       = the function passed to iv_thread_create / pthr_create
+  died handler      = the function stored into iv_thread.dead.handler
+  exit destructor   = the function passed to pthr_key_create
+  pool free         = free() of a work_pool_priv that other code can still reach
+See h13.py for the analyses.
+"""
+from ..core import (names_of, same_value, AnalysisBroken, Inliner, canon, strip, last_member, must_pass, relpath, norm_cond, walk, forward,
+                    lvalue_steps, root_var, is_int, is_null)
 from ..analyses import (is_call, holding, path_to, describe, exits_of, callback_kind, loops, innermost_loop,
-                        locksets, held, force_edges, list_empty_test, must_pass_from_block, atoms_reading)
-from .c12 import lm_arg, per_iter_must, POOL
+                        locksets, held, force_edges, list_empty_test, must_pass_from_block, atoms_reading, lock_effect)
+from . import h13
+from .h13 import POOL, lm_arg, INT0
 
 # embedded object record -> (register function, unregister/destroy function)
 EMBEDDED = {
@@ -15,28 +29,39 @@ EMBEDDED = {
     'iv_event_raw': ('iv_event_raw_register', 'iv_event_raw_unregister'),
     'pthread_mutex_t': ('___mutex_init', '___mutex_destroy'),
 }
-CONTAINER_EXEMPT = {
-    ('__iv_work_thread_die', 'work_pool_thread', 'idle_timer'):
-        'the idle timer is registered iff the thread is on the idle list (add/del are paired with register/unregister), and this '
-        'function is fatal if the thread is still on that list',
-    ('iv_work_start_thread', 'work_pool_thread', 'kick'): 'thread creation failed: the thread that would have registered its kick event never ran',
-    ('iv_work_start_thread', 'work_pool_thread', 'idle_timer'): 'thread creation failed: nothing was registered',
-    ('iv_popen_running_child_put', 'iv_popen_running_child', 'signal_timer'): 'checked by C19 (R-C19c)',
+# Design invariants (by record and field, not by function): a timer that is registered exactly while its object is
+# linked through the named list head.  The invariant itself is an obligation of R-C13a (checked inductively per context).
+PAIRED = {
+    'work_pool_thread': ('idle_timer', 'list'),
 }
+# kept for importers; the former function-name keyed exemptions are now derived (fresh object / failed hand-off /
+# timer-iff-on-list invariant) instead of being granted
+CONTAINER_EXEMPT = {}
+
+PRIV, THR, ITHR = 'work_pool_priv', 'work_pool_thread', 'iv_thread'
+K_STARTED = ('field', PRIV, 'started_threads')
+K_SHUT = ('field', PRIV, 'shutting_down')
+K_HEAD = ('field', PRIV, 'seq_head')
+K_TAIL = ('field', PRIV, 'seq_tail')
+K_KICKED = ('field', THR, 'kicked')
+K_DONE_EMPTY = ('empty', PRIV, 'work_done')
 
 
 def run(ctx):
-    ctx.rule('R-C13a', 'CONTAINER-FREE: a record embedding library objects is freed only after every embedded object that is '
-                       'ever registered was unregistered (mutex: destroyed) on every path', floor=5)
+    ctx.rule('R-C13a', 'CONTAINER-FREE: a record embedding library objects is freed only after every embedded object that may '
+                       'be registered was unregistered (mutex: destroyed) on every path of every calling context; a timer paired with a list '
+                       'linkage is registered exactly while its object is linked', floor=12)
     ctx.rule('R-C13b', 'the pool is freed only when drained: under shutting_down, with started_threads == 0 and the done queue empty, '
                        'both read under the pool lock; unlock precedes destroy precedes free', floor=4)
-    ctx.rule('R-C13c', 'paired hooks and count: started_threads++ only after successful thread creation, -- only in the die function, '
-                       'which calls thread_stop (if set) and posts the owner on the last-thread-while-shutting-down edge; thread_start precedes the first kick', floor=6)
-    ctx.rule('R-C13d', 'release wakes idle workers: every idle thread is kicked inside the lock region; with no thread started the owner event is posted', floor=3)
-    ctx.rule('R-C13e', 'join before release: the creator joins the thread before unlinking, unregistering and freeing its record; the '
-                       'thread-exit destructor only posts', floor=4)
-    ctx.rule('R-C13f', 'drain: a worker dies only when no work is queued (seq_head == seq_tail) resp. it was not kicked; while '
-                       'work is queued a shutting-down pool keeps its workers', floor=2)
+    ctx.rule('R-C13c', 'paired hooks and count: started_threads++ only after successful thread creation; a decrement is a worker death: '
+                       'thread_stop (if set) exactly once, kick event unregistered, owner posted afterwards unless threads remain or the pool is not '
+                       'shutting down; thread_start precedes the first kick and the worker loop', floor=10)
+    ctx.rule('R-C13d', 'release wakes idle workers: shutting_down is set and the handle detached on every path, every thread on the idle list '
+                       'is kicked inside the lock region; with no thread started the owner event is posted', floor=4)
+    ctx.rule('R-C13e', 'join before release: the creator joins the thread before touching, unlinking, unregistering or freeing its record; '
+                       'the dead event is registered and the exit destructor armed before the thread exists; the destructor only posts', floor=8)
+    ctx.rule('R-C13f', 'drain: a worker dies only on a decision, taken in the same pool-lock region, that no work is queued '
+                       '(seq_head == seq_tail) resp. that it was not kicked', floor=2)
     ctx.section(drain)
     ctx.section(container_free)
     ctx.section(pool_free)
@@ -45,281 +70,654 @@ def run(ctx):
     ctx.section(threads)
 
 
+# --------------------------------------------------------------------------
+# sites
+# --------------------------------------------------------------------------
+
+def _count_delta(e):
+    """net change a store makes to started_threads: +1 / -1 / other integer / None (not a store to it) / '?'"""
+    if not (e['ev'] == 'store' and lvalue_steps(e['lhs']) == [(PRIV, 'started_threads')]):
+        return None
+    op = e.get('op')
+    if op == '++':
+        return 1
+    if op == '--':
+        return -1
+    def ival(x):
+        x = strip(x)
+        if isinstance(x, dict) and x.get('k') == 'un' and x.get('op') == '-' and is_int(x.get('e')):
+            return -strip(x['e'])['v']
+        return x['v'] if is_int(x) else None
+    if op in ('+=', '-=') and 'rhs' in e:
+        n = ival(e['rhs'])
+        return '?' if n is None else (n if op == '+=' else -n)
+    # `n = n - 1` / `n = n + 1`
+    r = strip(e.get('rhs')) if op == '=' and 'rhs' in e else None
+    if isinstance(r, dict) and r.get('k') == 'bin' and r.get('op') in ('+', '-') and canon(r['l']) == canon(e['lhs']):
+        n = ival(r['r'])
+        return '?' if n is None else (n if r['op'] == '+' else -n)
+    return '?'
+
+
+def is_death(e):
+    return _count_delta(e) == -1
+
+
+def is_birth(e):
+    return _count_delta(e) == 1
+
+
+def is_pool_post(e):
+    return is_call(e, 'iv_event_post') and lm_arg(e, 0) == (PRIV, 'ev')
+
+
+def is_kick_post(e):
+    return is_call(e, 'iv_event_post') and lm_arg(e, 0) == (THR, 'kick')
+
+
+def hook_call(e, which, fn=None):
+    if e['ev'] != 'call' or 'fnexpr' not in e:
+        return False
+    if last_member(e.get('fnexpr')) == (PRIV, which):
+        return True
+    return fn is not None and h13.called_field(fn, e) == (PRIV, which)
+
+
+def is_obj_free(e, record):
+    if not (is_call(e, 'free') and e.get('args')):
+        return False
+    a = strip(e['args'][0])
+    return isinstance(a, dict) and a.get('k') == 'var' and a.get('record') == record
+
+
+def _agg(ctx, rid, inst, events, okf, detail, root, g, path=True):
+    """one obligation per source site: it holds iff it holds for every copy of the site in the context"""
+    for loc, evs in sorted(h13.by_loc(events).items(), key=lambda kv: str(kv[0])):
+        bad = [e for e in evs if not okf(e)]
+        ctx.ob(rid, inst, not bad, loc=loc, detail=detail(evs[0]) if callable(detail) else detail,
+               path=(path_to(g, bad[0]) if (bad and path) else None), fn=root.q)
+
+
+# --------------------------------------------------------------------------
+# R-C13f
+# --------------------------------------------------------------------------
+
 def drain(ctx):
+    """Old: atoms at the call of the function named __iv_work_thread_die.  Now: at every decrement of started_threads
+    (the death of a worker), in every handler context that reaches it, a *decision* `seq_head == seq_tail` or
+    `kicked == 0` holds that was taken in the lock region of the death (fatal assertions are not decisions)."""
     prog = ctx.prog
     n = 0
-    for f in sorted(prog.all_funcs(), key=lambda f: f.q):
-        dies = [e for e in f.events() if is_call(e, '__iv_work_thread_die')]
-        if not dies:
-            continue
-        hd = holding(f)
-        for e in dies:
+    for (root, g, sites) in h13.contexts(prog, is_death, key='death'):
+        G = h13.guards(g, assertions=False, unlock_kills=True)
+        unlock = lambda e: any(op == 'unlock' and lid == POOL for (op, lid) in lock_effect(e))
+        unk = [e for e in g.events() if is_call(e, 'iv_event_unregister') and lm_arg(e, 0) == (THR, 'kick')]
+        mpu = h13.must(g, lambda e: e in unk, kill=unlock)
+        def why_at(e):
+            A = G.get((e['_b'], e['_i']))
+            if h13.g_equal(A, K_HEAD, K_TAIL, lock=POOL):
+                return 'seq_head == seq_tail'
+            if h13.g_zero(A, K_KICKED, lock=POOL):
+                return 'kicked == 0'
+            return None
+        def why(e):
+            """the decision holds where the count is dropped, or -- the worker stops being reachable for work when its
+            kick event is unregistered -- where that happened earlier in the same lock region on every path"""
+            w = why_at(e)
+            if w is None and unk and mpu.get((e['_b'], e['_i'])):
+                ws = {why_at(u) for u in unk}
+                if None not in ws:
+                    w = sorted(ws)[0]
+            return w
+        for loc, evs in sorted(h13.by_loc(sites).items(), key=lambda kv: str(kv[0])):
             n += 1
-            A = hd.get((e['_b'], e['_i']), frozenset())
-            empty = any(a[0] == '==' and {('work_pool_priv', 'seq_head'), ('work_pool_priv', 'seq_tail')} <= set(a[3]) for a in A)
-            notkicked = any(a[0] == '==' and a[2] == '0' and ('work_pool_thread', 'kicked') in a[3] for a in A)
-            ctx.ob('R-C13f', '%s:dies-only-when-drained' % f.name, empty or notkicked, loc=e['loc'],
-                   detail='the worker exits on the edge %s' % ('seq_head == seq_tail' if empty else 'kicked == 0' if notkicked else
-                                                              '(neither "queue empty" nor "not kicked" holds here: queued items would be dropped)'),
-                   path=None if (empty or notkicked) else path_to(f, e), fn=f.q)
+            bad = [e for e in evs if why(e) is None]
+            ctx.ob('R-C13f', '%s:dies-only-when-drained' % root.name, not bad, loc=loc,
+                   detail='the worker exits on the edge %s' % (why(evs[0]) if not bad else
+                                                              '(neither "queue empty" nor "not kicked" was decided in this lock region: queued items would be dropped)'),
+                   path=path_to(g, bad[0]) if bad else None, fn=root.q)
     if n < 2:
-        raise AnalysisBroken('worker exit sites: %d found, 2 confirmed' % n)
+        raise AnalysisBroken('worker exit sites: %d (context, site) pairs found, 2 confirmed' % n)
+
+
+# --------------------------------------------------------------------------
+# R-C13a
+# --------------------------------------------------------------------------
+
+def _registered(prog, files):
+    """(record, field) of every embedded object that some context registers"""
+    regs = {r for (r, u) in EMBEDDED.values()}
+    out = set()
+    for f in prog.all_funcs():
+        for e in f.events():
+            if e['ev'] == 'call' and e.get('callee') in regs and e.get('args'):
+                lm = lm_arg(e, 0)
+                if lm:
+                    out.add(lm)
+    for (root, g, sites) in h13.contexts(prog, lambda e: e['ev'] == 'call' and e.get('callee') in regs, key='regs'):
+        if not root.file.endswith(tuple(files)):
+            continue
+        for e in sites:
+            lm = lm_arg(e, 0) if e.get('args') else None
+            if lm:
+                out.add(lm)
+    return out
+
+
+def _worlds(prog, root, g, rec, registered):
+    c = h13._cache(prog)
+    key = ('worlds', root.q, rec)
+    if key in c:
+        return c[key]
+    fields = [fld for (fld, t) in h13.fields_types(prog, rec) if t in EMBEDDED and (rec, fld) in registered]
+    W = None
+    if fields:
+        own = [fld for (fld, t) in h13.fields_types(prog, rec) if t == 'iv_timer' and root in h13.handlers_of(prog, rec, fld)]
+        entry = 'fresh' if root in h13.thread_bodies(prog) else 'live'
+        W = h13.Worlds(prog, g, rec, fields, EMBEDDED, paired=PAIRED.get(rec), entry=entry, own_timers=own)
+    c[key] = W
+    return W
 
 
 def container_free(ctx, files=('iv_work.c', 'iv_thread_posix.c'), rid='R-C13a'):
+    """Old: per function, `unregister(&obj->fld)` matched by text must precede free(obj); frees in helpers were exempted
+    by function name.  Now: per calling context an abstract state of every embedded object (registered / not / handed to a
+    new thread) is propagated from what is known at entry (a handler's object has everything registered that is ever
+    registered, a fired timer is not, a malloc'ed object has nothing) through register/unregister/failure edges and
+    hand-offs; at free() every field must be 'not registered' in every possible state."""
     prog = ctx.prog
-    # which (record, field) embedded objects are ever registered?
-    registered = {}
-    for f in prog.all_funcs():
-        for e in f.events():
-            if e['ev'] == 'call' and 'callee' in e:
-                for rec, (reg, unreg) in EMBEDDED.items():
-                    if e['callee'] == reg and e['args']:
-                        lm = lm_arg(e, 0)
-                        if lm:
-                            registered.setdefault(lm, []).append((f, e))
+    registered = _registered(prog, files)
     n = 0
-    for f in sorted(prog.all_funcs(), key=lambda f: f.q):
-        if not f.file.endswith(files):
+    def anyfree(e):
+        return is_call(e, 'free') and e.get('args') and strip(e['args'][0]).get('k') == 'var' and strip(e['args'][0]).get('record')
+    for (root, g, sites) in h13.contexts(prog, anyfree, key='free'):
+        if not root.file.endswith(tuple(files)):
             continue
-        frees = [e for e in f.events() if is_call(e, 'free')]
-        if not frees:
-            continue
-        g = None
-        for fr in frees:
-            a = strip(fr['args'][0])
-            if not (isinstance(a, dict) and a.get('k') == 'var' and a.get('record')):
+        for rec in sorted({strip(e['args'][0])['record'] for e in sites}):
+            W = _worlds(prog, root, g, rec, registered)
+            if W is None:
                 continue
-            rec = a['record']
-            r = prog.records.get(rec)
-            if not r or 'fields' not in r:
-                continue
-            emb = [(fl['name'], fl.get('record') or ('pthread_mutex_t' if 'mutex' in fl['type'] else None)) for fl in r['fields']]
-            emb = [(n_, t) for (n_, t) in emb if t in EMBEDDED or (t == 'pthread_mutex_t')]
-            emb = [(n_, 'pthread_mutex_t' if t not in EMBEDDED else t) for (n_, t) in emb]
-            for (fld, t) in emb:
-                if (rec, fld) not in registered:
+            frees = [e for e in sites if strip(e['args'][0])['record'] == rec]
+            for fld in W.fields:
+                i = W.idx[fld]
+                reg, unreg = W.regs[fld]
+                for loc, evs in sorted(h13.by_loc(frees).items(), key=lambda kv: str(kv[0])):
+                    n += 1
+                    bad = [e for e in evs if any(w[i] != 0 for w in (W.at(e) or ()))]
+                    st = sorted({w[i] for e in evs for w in (W.at(e) or ())})
+                    ctx.ob(rid, 'free(%s).%s@%s' % (rec, fld, root.name), not bad, loc=loc,
+                           detail='%s(&%s.%s) (or: never registered / registration failed / thread never created) on every path to this free; states here: %s'
+                                  % (unreg, rec, fld, ['not registered' if s == 0 else 'registered' if s == 1 else 'handed to a running thread' for s in st]),
+                           path=path_to(g, bad[0]) if bad else None, fn=root.q)
+    # the pairing invariant that justifies "not on the list => timer not registered"
+    if rid == 'R-C13a':
+        for rec, (tf, lf) in sorted(PAIRED.items()):
+            def touches(e, rec=rec, tf=tf, lf=lf):
+                if e['ev'] == 'call' and e.get('args'):
+                    return lm_arg(e, 0) in ((rec, tf), (rec, lf)) and e.get('callee') in h13.LIST_ON + h13.LIST_OFF + EMBEDDED['iv_timer']
+                if e['ev'] == 'store':
+                    st = lvalue_steps(e['lhs'])
+                    return len(st) == 2 and st[1] == (rec, lf)
+                return False
+            m = 0
+            for (root, g, sites) in h13.contexts(prog, touches, key=('pair', rec)):
+                W = _worlds(prog, root, g, rec, registered)
+                if W is None or tf not in W.idx:
                     continue
-                n += 1
-                inst = '%s:free(%s):%s.%s' % (f.name, a['name'], rec, fld)
-                key = (f.name, rec, fld)
-                if key in CONTAINER_EXEMPT:
-                    ctx.exempt(rid, inst, CONTAINER_EXEMPT[key])
-                    ctx.ob(rid, inst, True, loc=fr['loc'], detail='exempt: ' + CONTAINER_EXEMPT[key], fn=f.q)
-                    continue
-                reg, unreg = EMBEDDED[t]
-                obj = a['name']
-                target = '&%s->%s' % (obj, fld)
-                local_reg = [e for e in f.events() if is_call(e, reg) and canon(e['args'][0]) == target]
-                if local_reg:
-                    # registered in this very function: needed only on paths on which the registration happened (and succeeded)
-                    resvars = {canon(s_['lhs']) for s_ in f.events() if s_['ev'] == 'store' and 'rhs' in s_
-                               and strip(s_['rhs']).get('k') == 'call' and strip(s_['rhs']).get('callee') == reg}
-                    def tr(e, s_, unreg=unreg, target=target):
-                        if e in local_reg:
-                            return 'R'
-                        if is_call(e, unreg) and canon(e['args'][0]) == target:
-                            return 'N'
-                        return s_
-                    def edge(blk, si, s_, resvars=resvars):
-                        if s_ == 'R' and blk.term and blk.term.get('cond') is not None and len(blk.succ) == 2:
-                            for (op, lc, rc, l, r) in norm_cond(blk.term['cond'], si == 0):
-                                if lc in resvars and rc == '0' and op in ('!=', '<', '>'):
-                                    return 'N'     # the registration reported failure
-                        return s_
-                    def jn(a_, b_):
-                        return 'R' if 'R' in (a_, b_) else 'N'
-                    _, ev_in = forward(f, 'N', tr, jn, edge=edge)
-                    ok = ev_in.get((fr['_b'], fr['_i'])) != 'R'
-                else:
-                    mp = must_pass(f, lambda e, unreg=unreg, target=target: is_call(e, unreg) and canon(e['args'][0]) == target)
-                    ok = bool(mp.get((fr['_b'], fr['_i'])))
-                ctx.ob(rid, inst, ok, loc=fr['loc'],
-                       detail='%s(&%s->%s) on every path to this free' % (unreg, obj, fld), path=None if ok else path_to(f, fr), fn=f.q)
-    if n < 4 and rid == 'R-C13a':
+                m += 1
+                ex = W.at_exit() or ()
+                bad = [w for w in ex if (w[W.idx[tf]] == 1) != (w[W.LIST] == 1)]
+                ctx.ob(rid, '%s.%s-registered-iff-on-%s@%s' % (rec, tf, lf, root.name), not bad, loc=root.loc,
+                       detail='at every return of this context the %s is registered exactly when the object is linked through .%s '
+                              '(given that at entry; a fired timer: linked, not registered)%s' % (tf, lf, '' if not bad else ': violated, (timer, linked) = %s'
+                                                                                               % sorted({(w[W.idx[tf]], w[W.LIST]) for w in bad})), fn=root.q)
+            if m < 2:
+                raise AnalysisBroken('contexts that link/unlink %s.%s or (un)register %s.%s: %d found' % (rec, lf, rec, tf, m))
+    if n < 8 and rid == 'R-C13a':
         raise AnalysisBroken('container frees with registered embedded objects: %d found' % n)
 
 
-def pool_free(ctx):
-    prog = ctx.prog
-    f = prog.fn('iv_work_event')
-    frees = [e for e in f.events() if is_call(e, 'free') and strip(e['args'][0]).get('record') == 'work_pool_priv']
-    if not frees:
-        raise AnalysisBroken('pool free not found')
-    hd = holding(f)
-    ls = locksets(f)
-    for fr in frees:
-        A = hd.get((fr['_b'], fr['_i']), frozenset())
-        sd = any(a[0] == '!=' and a[2] == '0' and ('work_pool_priv', 'shutting_down') in a[3] for a in A)
-        ctx.ob('R-C13b', 'pool-free:shutting-down', sd, loc=fr['loc'], detail='free(pool) only on the shutting_down edge', fn=f.q)
-        # the drained tests: blocks whose condition reads started_threads / work_done, evaluated under the lock, dominating the free
-        conds = {'started_threads': False, 'work_done': False}
-        for b, blk in f.blocks.items():
-            if not (blk.term and blk.term.get('cond') is not None and len(blk.succ) == 2):
-                continue
-            for si in (0, 1):
-                for at in norm_cond(blk.term['cond'], si == 0):
-                    (op, lc, rc, l, r) = at
-                    from ..analyses import edge_dominates
-                    which = None
-                    if last_member(l) == ('work_pool_priv', 'started_threads') and op == '==' and rc == '0':
-                        which = 'started_threads'
-                    if list_empty_test(at, member_key=('work_pool_priv', 'work_done')) == 'empty':
-                        which = 'work_done'
-                    if which and edge_dominates(f, b, si, fr['_b']):
-                        locked = POOL in held(ls.get((b, len(blk.events))))
-                        conds[which] = locked
-        ctx.ob('R-C13b', 'pool-free:no-threads', conds['started_threads'], loc=fr['loc'],
-               detail='free(pool) is dominated by started_threads == 0 read under the pool lock', fn=f.q)
-        ctx.ob('R-C13b', 'pool-free:done-queue-empty', conds['work_done'], loc=fr['loc'],
-               detail='free(pool) is dominated by an emptiness test of work_done read under the pool lock', fn=f.q)
-        mpu = must_pass(f, lambda e: is_call(e, '___mutex_destroy') and lm_arg(e, 0) == ('work_pool_priv', 'lock'))
-        unl = not held(ls.get((fr['_b'], fr['_i'])))
-        des = [e for e in f.events() if is_call(e, '___mutex_destroy')]
-        ok = bool(mpu.get((fr['_b'], fr['_i']))) and unl and all(POOL not in held(ls.get((e['_b'], e['_i']))) for e in des)
-        ctx.ob('R-C13b', 'pool-free:unlock-destroy-free', ok, loc=fr['loc'],
-               detail='the lock is released, then destroyed, then the pool is freed', fn=f.q)
+# --------------------------------------------------------------------------
+# R-C13b
+# --------------------------------------------------------------------------
 
+def pool_free(ctx):
+    """Old: only in the function named iv_work_event; the tests had to be single dominating branch edges.  Now: every
+    free of a pool record that other code can still reach (not a freshly allocated, unpublished one), in every
+    context; the tests are must-facts (decisions on every path) that remember the locks they were taken under."""
+    prog = ctx.prog
+    registered = _registered(prog, ('iv_work.c',))
+    n = 0
+    for (root, g, sites) in h13.contexts(prog, lambda e: is_obj_free(e, PRIV), key='poolfree'):
+        W = _worlds(prog, root, g, PRIV, registered)
+        if W is None:
+            raise AnalysisBroken('the pool record embeds no registered object')
+        live = [e for e in sites if any(w[W.SHARED] for w in (W.at(e) or ()))]
+        if not live:
+            continue
+        G = h13.guards(g, assertions=True, unlock_kills=False)
+        ls = locksets(g)
+        mpd = must_pass(g, lambda e: is_call(e, '___mutex_destroy') and lm_arg(e, 0) == (PRIV, 'lock'))
+        des = [e for e in g.events() if is_call(e, '___mutex_destroy') and lm_arg(e, 0) == (PRIV, 'lock')]
+        at = lambda e: G.get((e['_b'], e['_i']))
+        n += 1
+        _agg(ctx, 'R-C13b', 'pool-free:shutting-down', live, lambda e: h13.g_nonzero(at(e), K_SHUT),
+             'free(pool) only after the decision shutting_down != 0', root, g)
+        _agg(ctx, 'R-C13b', 'pool-free:no-threads', live, lambda e: h13.g_zero(at(e), K_STARTED, lock=POOL),
+             'every path to free(pool) decided started_threads == 0 under the pool lock', root, g)
+        _agg(ctx, 'R-C13b', 'pool-free:done-queue-empty', live, lambda e: h13.g_nonzero(at(e), K_DONE_EMPTY, lock=POOL),
+             'every path to free(pool) decided that work_done is empty under the pool lock', root, g)
+        _agg(ctx, 'R-C13b', 'pool-free:unlock-destroy-free', live,
+             lambda e: bool(mpd.get((e['_b'], e['_i']))) and POOL not in held(ls.get((e['_b'], e['_i'])))
+             and all(POOL not in held(ls.get((d['_b'], d['_i']))) for d in des),
+             'the lock is released, then destroyed, then the pool is freed', root, g)
+    if not n:
+        raise AnalysisBroken('pool free not found')
+
+
+# --------------------------------------------------------------------------
+# R-C13c
+# --------------------------------------------------------------------------
 
 def hooks(ctx):
     prog = ctx.prog
-    f = prog.fn('iv_work_start_thread')
-    hd = holding(f)
-    inc = [e for e in f.events() if e['ev'] == 'store' and last_member(e['lhs']) == ('work_pool_priv', 'started_threads') and e['op'] == '++']
-    cr = [e for e in f.events() if is_call(e, 'iv_thread_create')]
-    if not inc or not cr:
-        raise AnalysisBroken('start_thread: count or creation not found')
-    for e in inc:
-        A = hd.get((e['_b'], e['_i']), frozenset())
-        ok = any(a[0] in ('>=', '==') and a[2] == '0' and all(k[0] == 'var' for k in a[3]) for a in A)
-        mp = must_pass(f, lambda x: x in cr)
-        ctx.ob('R-C13c', 'start:count-after-success', ok and bool(mp.get((e['_b'], e['_i']))), loc=e['loc'],
-               detail='started_threads++ on the success edge of iv_thread_create', fn=f.q)
-    ws = {(fn.name, e['op']) for (fn, e) in prog.writers_of('work_pool_priv', 'started_threads')}
-    ctx.ob('R-C13c', 'started_threads:writers', ws == {('iv_work_start_thread', '++'), ('__iv_work_thread_die', '--'), ('iv_work_pool_create', '=')}, loc=f.loc,
-           detail='writers: %s' % sorted(ws), fn=f.q)
-    d = prog.fn('__iv_work_thread_die')
-    dec = [e for e in d.events() if e['ev'] == 'store' and last_member(e['lhs']) == ('work_pool_priv', 'started_threads') and e['op'] == '--']
-    stop = [e for e in d.events() if e['ev'] == 'call' and last_member(e.get('fnexpr')) == ('work_pool_priv', 'thread_stop')]
-    # thread_stop on every path unless the NULL edge
-    def tr(e, s):
-        return True if e in stop else s
-    def edge(blk, si, s):
-        if blk.term and blk.term.get('cond') is not None and len(blk.succ) == 2:
-            for (op, lc, rc, l, r) in norm_cond(blk.term['cond'], si == 0):
-                if op == '==' and rc == '0' and last_member(l) == ('work_pool_priv', 'thread_stop'):
-                    return True
-        return s
-    _, ev_in = forward(d, False, tr, lambda a, b: a and b, edge=edge)
-    ctx.ob('R-C13c', 'die:thread_stop-called', bool(ev_in.get((d.exit, 0))) and len(stop) == 1 and len(dec) == 1, loc=d.loc,
-           detail='every worker that dies calls thread_stop exactly once (if set) and drops the count once', fn=d.q)
-    # last thread while shutting down posts the owner
-    post = [e for e in d.events() if is_call(e, 'iv_event_post') and lm_arg(e, 0) == ('work_pool_priv', 'ev')]
-    okp = False
-    for b, blk in d.blocks.items():
-        if blk.term and blk.term.get('cond') is not None and len(blk.succ) == 2:
-            for si in (0, 1):
-                for (op, lc, rc, l, r) in norm_cond(blk.term['cond'], si == 0):
-                    if last_member(l) == ('work_pool_priv', 'started_threads') and op == '==' and rc == '0':
-                        mp = must_pass_from_block(d, blk.succ[si], lambda e: e in post)
-                        A = holding(d).get((blk.id, len(blk.events)), frozenset())
-                        sd = any(a[0] == '!=' and ('work_pool_priv', 'shutting_down') in a[3] for a in A)
-                        okp = bool(mp.get((d.exit, 0))) and sd
-    ctx.ob('R-C13c', 'die:last-thread-posts-owner', okp, loc=d.loc,
-           detail='on the shutting_down && started_threads == 0 edge the pool event is posted so the owner can free the pool', fn=d.q)
-    # the count is dropped after the kick event was unregistered and before the post
-    mp = must_pass(d, lambda e: e in dec)
-    ctx.ob('R-C13c', 'die:count-before-post', all(mp.get((e['_b'], e['_i'])) for e in post) and bool(post), loc=d.loc,
-           detail='started_threads-- precedes the owner notification', fn=d.q)
-    # who calls die: only with the pool lock held (C14) ; here: thread_start precedes the first kick in the worker
-    w = prog.fn('iv_work_thread')
-    start = [e for e in w.events() if e['ev'] == 'call' and last_member(e.get('fnexpr')) == ('work_pool_priv', 'thread_start')]
-    kicks = [e for e in w.events() if is_call(e, 'iv_event_post') and lm_arg(e, 0) == ('work_pool_thread', 'kick')]
-    mains = [e for e in w.events() if is_call(e, 'iv_main')]
-    if not kicks or not mains:
-        raise AnalysisBroken('worker entry: first kick / iv_main not found')
-    def tr2(e, s):
-        return True if e in start else s
-    def edge2(blk, si, s):
-        if blk.term and blk.term.get('cond') is not None and len(blk.succ) == 2:
-            for (op, lc, rc, l, r) in norm_cond(blk.term['cond'], si == 0):
-                if op == '==' and rc == '0' and last_member(l) == ('work_pool_priv', 'thread_start'):
-                    return True
-        return s
-    _, ev2 = forward(w, False, tr2, lambda a, b: a and b, edge=edge2)
-    ctx.ob('R-C13c', 'worker:thread_start-before-first-kick', all(ev2.get((e['_b'], e['_i'])) for e in kicks + mains), loc=kicks[0]['loc'],
-           detail='thread_start (if set) runs before the worker can pick up any work', fn=w.q)
+    # --- births: ++ only when iv_thread_create reported success on every path to it
+    nb = 0
+    for (root, g, sites) in h13.contexts(prog, is_birth, key='birth'):
+        rv = h13.result_vars(g, ('iv_thread_create',))
+        def tr(e, s):
+            if is_call(e, 'iv_thread_create'):
+                return 'pending'
+            return s
+        def edge(blk, si, s):
+            if s in ('pending', 'ok'):
+                for (i, atoms) in h13.cond_edges(blk):
+                    if i == si:
+                        r = h13.result_edge(atoms, ('iv_thread_create',), rv, prog)
+                        if r:
+                            return r
+            return s
+        def jn(a, b):
+            return a if a == b else 'mixed'
+        _, ev_in = forward(g, 'none', tr, jn, edge=edge)
+        nb += 1
+        _agg(ctx, 'R-C13c', 'start:count-after-success@%s' % root.name, sites, lambda e: ev_in.get((e['_b'], e['_i'])) == 'ok',
+             'started_threads++ only on the success edge of iv_thread_create', root, g)
+    if not nb:
+        raise AnalysisBroken('no increment of started_threads found')
+    # --- every writer of the count is a birth, a death or the initialisation of a pool nobody else can reach yet
+    ws = prog.writers_of(PRIV, 'started_threads')
+    others = [(fn, e) for (fn, e) in ws if not is_birth(e) and not is_death(e)]
+    registered = _registered(prog, ('iv_work.c',))
+    okw, det = True, []
+    for (root, g, sites) in h13.contexts(prog, lambda e: e['ev'] == 'store' and (PRIV, 'started_threads') in lvalue_steps(e['lhs'])
+                                         and not is_birth(e) and not is_death(e), key='count-init'):
+        W = _worlds(prog, root, g, PRIV, registered)
+        for e in sites:
+            fresh = W is not None and not any(w[W.SHARED] for w in (W.at(e) or ()))
+            good = e.get('op') == '=' and is_int(e.get('rhs'), 0) and fresh
+            okw = okw and good
+            det.append('%s %s' % (describe(e), 'in a pool not yet published' if fresh else 'in a LIVE pool'))
+    if others and not det:
+        okw = False
+    ctx.ob('R-C13c', 'started_threads:writers', okw and bool(ws), loc=others[0][1]['loc'] if others else None,
+           detail='besides ++ (birth) and -- (death) the count is only initialised to 0 in a pool that is not yet published: %s' % sorted(set(det)))
+    # --- deaths
+    nd = 0
+    for (root, g, sites) in h13.contexts(prog, is_death, key='death'):
+        nd += 1
+        fc = h13.field_caches(g)
+        CAP = 2
+        # (a) exactly one thread_stop per death, none without: count both along every path
+        def tr(e, S):
+            if is_death(e):
+                return frozenset((min(d + 1, CAP), s, z) for (d, s, z) in S)
+            if hook_call(e, 'thread_stop', g):
+                return frozenset((d, min(s + 1, CAP), z) for (d, s, z) in S)
+            if e['ev'] == 'store' and (PRIV, 'thread_stop') in lvalue_steps(e['lhs']):
+                return frozenset((d, s, False) for (d, s, z) in S)
+            return S
+        def edge(blk, si, S):
+            for (i, atoms) in h13.cond_edges(blk):
+                if i == si and h13.atoms_zero(atoms, ('field', PRIV, 'thread_stop'), fc):
+                    return frozenset((d, s, True) for (d, s, z) in S)
+                if i == si and h13.atoms_nonzero(atoms, ('field', PRIV, 'thread_stop'), fc):
+                    return frozenset((d, s, False) for (d, s, z) in S)
+            return S
+        _, ev_in = forward(g, frozenset({(0, 0, False)}), tr, lambda a, b: a | b, edge=edge)
+        ex = ev_in.get((g.exit, 0), frozenset())
+        bad = [(d, s, z) for (d, s, z) in ex if not ((d == 0 and s == 0) or (d == 1 and (s == 1 or (s == 0 and z))))]
+        ctx.ob('R-C13c', 'die:thread_stop-called@%s' % root.name, not bad and bool(ex), loc=sites[0]['loc'],
+               detail='on every path through this handler: as many thread_stop calls as deaths (at most one; none needed on the thread_stop == NULL edge)%s'
+                      % ('' if not bad else '; violated with (deaths, thread_stop calls, hook known NULL) = %s' % sorted(bad)), fn=root.q)
+        # (b) the dying worker's loop can end: its kick event is unregistered on every path through a death
+        unk = lambda e: is_call(e, 'iv_event_unregister') and lm_arg(e, 0) == (THR, 'kick')
+        def tr2(e, s):
+            d, u = s
+            if is_death(e):
+                d = True
+            if unk(e):
+                u = True
+            return (d, u)
+        _, ev2 = forward(g, frozenset({(False, False)}), lambda e, S: frozenset(tr2(e, s) for s in S), lambda a, b: a | b)
+        ex2 = ev2.get((g.exit, 0), frozenset())
+        ctx.ob('R-C13c', 'die:kick-unregistered@%s' % root.name, bool(ex2) and all(u for (d, u) in ex2 if d), loc=sites[0]['loc'],
+               detail='every path on which the worker is counted out also unregisters its kick event (its loop can end)', fn=root.q)
+        # (c) after the decrement the owner is posted unless a later decision says threads remain or the pool is not shutting down
+        def excuse(blk, si, atoms):
+            return h13.atoms_zero(atoms, K_SHUT) or h13.atoms_nonzero(atoms, K_STARTED)
+        def okpost(e):
+            mp = h13.must(g, is_pool_post, excuse=excuse, start_event=e)
+            return bool(mp.get((g.exit, 0), True)) and (g.exit, 0) in mp
+        _agg(ctx, 'R-C13c', 'die:last-thread-posts-owner@%s' % root.name, sites, okpost,
+             'after started_threads-- the pool event is posted on every path, except after deciding !shutting_down or started_threads != 0 '
+             '(so the owner can free the pool)', root, g, path=False)
+    if nd < 2:
+        raise AnalysisBroken('worker death contexts: %d found, 2 confirmed' % nd)
+    # --- thread_start precedes the first kick and the worker loop, in every thread body
+    bodies = [b for b in h13.thread_bodies(prog) if any(h13.mentions_record(e, THR) or h13.mentions_record(e, PRIV) for e in h13.ctx_of(prog, b).events())]
+    if not bodies:
+        raise AnalysisBroken('worker thread body (argument of iv_thread_create) not found')
+    for w in bodies:
+        g = h13.ctx_of(prog, w)
+        kicks = [e for e in g.events() if is_kick_post(e)]
+        mains = [e for e in g.events() if is_call(e, 'iv_main')]
+        if not kicks or not mains:
+            raise AnalysisBroken('worker entry: first kick / iv_main not found')
+        def excuse2(blk, si, atoms):
+            return h13.atoms_zero(atoms, ('field', PRIV, 'thread_start'), h13.field_caches(g))
+        mp = h13.must(g, lambda e: hook_call(e, 'thread_start', g), excuse=excuse2)
+        _agg(ctx, 'R-C13c', 'worker:thread_start-before-first-kick', kicks + mains, lambda e: bool(mp.get((e['_b'], e['_i']))),
+             'thread_start (if set) runs before the worker can pick up any work', w, g)
+        # exactly once: no path calls it twice
+        def trc(e, S):
+            if hook_call(e, 'thread_start', g):
+                return frozenset(min(c + 1, 2) for c in S)
+            return S
+        _, evc = forward(g, frozenset({0}), trc, lambda a, b: a | b)
+        ctx.ob('R-C13c', 'worker:thread_start-at-most-once', all(c <= 1 for c in evc.get((g.exit, 0), frozenset({0}))) , loc=w.loc,
+               detail='no path through the thread body calls thread_start twice', fn=w.q)
+
+
+# --------------------------------------------------------------------------
+# R-C13d
+# --------------------------------------------------------------------------
+
+def _cursor_of(g, base):
+    """the list cursor(s) from which the object expression `base` (of &base->kick) is derived by container_of"""
+    cb = h13.container_base(base)
+    if cb is not None:
+        v = root_var(cb[1])
+        return {v['name']} if v is not None else set()
+    b = strip(base)
+    if isinstance(b, dict) and b.get('k') == 'var':
+        out = set()
+        for e in g.events():
+            if e['ev'] == 'store' and e.get('op') == '=' and 'rhs' in e and strip(e['lhs']).get('k') == 'var' and strip(e['lhs'])['name'] == b['name']:
+                cb = h13.container_base(e['rhs'])
+                v = root_var(cb[1]) if (cb is not None and cb[0] == THR) else None
+                if v is None:
+                    return set()
+                out.add(v['name'])
+        return out
+    return set()
 
 
 def put(ctx):
+    """Old: the kick had to sit in a natural loop of a function that mentions idle_threads somewhere; tests on a single
+    branch block.  Now, in the context of the exported iv_work_pool_put: per *definition* of the list cursor (first
+    element of idle_threads, then whatever advances it) every path reaches a kick of the thread derived from it or the
+    decision `cursor == &idle_threads`, and the walk ends only on that decision; must-facts elsewhere."""
     prog = ctx.prog
     f = prog.fn('iv_work_pool_put')
-    ls = locksets(f)
-    sd = [e for e in f.events() if e['ev'] == 'store' and last_member(e['lhs']) == ('work_pool_priv', 'shutting_down') and canon(e.get('rhs')) == '1']
-    ctx.ob('R-C13d', 'put:shutting_down-under-lock', bool(sd) and all(POOL in held(ls.get((e['_b'], e['_i']))) for e in sd),
-           loc=sd[0]['loc'] if sd else f.loc, detail='shutting_down = 1 stored under the pool lock', fn=f.q)
-    kicks = [e for e in f.events() if is_call(e, 'iv_event_post') and lm_arg(e, 0) == ('work_pool_thread', 'kick')]
-    lps = loops(f)
-    okk = bool(kicks)
+    g = h13.ctx_of(prog, f)
+    ls = locksets(g)
+    al = h13.ptr_aliases(g)
+    exit_pt = (g.exit, 0)
+    is_sd = lambda e: e['ev'] == 'store' and lvalue_steps(e['lhs']) == [(PRIV, 'shutting_down')]
+    sd = [e for e in g.events() if is_sd(e)]
+    unlock = lambda e: any(op == 'unlock' and lid == POOL for (op, lid) in lock_effect(e))
+    sets = lambda e: is_sd(e) and e.get('op') == '=' and is_int(e.get('rhs')) and strip(e['rhs'])['v'] != 0
+    mp_sd = h13.must(g, sets, kill=lambda e: is_sd(e) and not sets(e))
+    ok = bool(sd) and all(POOL in held(ls.get((e['_b'], e['_i']))) for e in sd) and bool(mp_sd.get(exit_pt))
+    ctx.ob('R-C13d', 'put:shutting_down-under-lock', ok, loc=sd[0]['loc'] if sd else f.loc,
+           detail='shutting_down is set (non-zero) on every path, stored only under the pool lock', fn=f.q)
+    # --- idle workers
+    kicks = [e for e in g.events() if is_kick_post(e)]
+    okk, why = bool(kicks), 'no kick post found'
+    cursors = set()
     for k in kicks:
-        h = innermost_loop(f, k['_b'], lps)
-        okk = okk and h is not None and POOL in held(ls.get((k['_b'], k['_i'])))
-        # the loop walks the idle list
-        walked = any(last_member(x) == ('work_pool_priv', 'idle_threads') for b in lps.get(h, ()) for e in f.blocks[b].events for x in walk(e) if x.get('k') == 'member') \
-            or any(last_member(x) == ('work_pool_priv', 'idle_threads') for e in f.events() for x in walk(e) if x.get('k') == 'member')
-        okk = okk and walked
+        base = strip(strip(k['args'][0])['e'])['base']
+        cs = _cursor_of(g, base)
+        if not cs:
+            okk, why = False, 'the kicked thread is not derived from a list cursor (%s)' % canon(base)
+        cursors |= cs
+        if POOL not in held(ls.get((k['_b'], k['_i']))):
+            okk, why = False, 'a kick is posted outside the pool-lock region'
+    if okk:
+        defs = [e for e in g.events() if e['ev'] == 'store' and strip(e['lhs']).get('k') == 'var' and strip(e['lhs'])['name'] in cursors]
+        def is_first(e):
+            r = h13.resolve(e.get('rhs'), al) if 'rhs' in e else None
+            if not (isinstance(r, dict) and r.get('k') == 'member' and r.get('record') == 'iv_list_head' and r['field'] == 'next'):
+                return False
+            b = r['base']
+            hd = last_member(b) if not r['arrow'] else h13.head_of(b, al)
+            return hd == (PRIV, 'idle_threads')
+        firsts = [e for e in defs if is_first(e)]
+        if not firsts:
+            okk, why = False, 'no cursor starts at the first element of idle_threads'
+        def var_def(e, name):
+            return e['ev'] == 'store' and strip(e['lhs']).get('k') == 'var' and strip(e['lhs'])['name'] == name
+        def derived_from(e, cur):
+            """T = container_of(cur, work_pool_thread, list): the thread object the cursor points into"""
+            if not (e['ev'] == 'store' and e.get('op') == '=' and 'rhs' in e and strip(e['lhs']).get('k') == 'var'):
+                return False
+            cb = h13.container_base(e['rhs'])
+            return cb is not None and cb[0] == THR and (root_var(cb[1]) or {}).get('name') == cur
+        def kick_base_raw(e):
+            return strip(strip(e['args'][0])['e'])['base']
+        def kick_base(e):
+            return strip(kick_base_raw(e))
+        for d in defs:
+            cur = strip(d['lhs'])['name']
+            def at_end(blk, si, atoms, cur=cur):
+                for (op, lc, rc, l, r) in atoms:
+                    if op != '==':
+                        continue
+                    for (x, y) in ((l, r), (r, l)):
+                        x0 = strip(x)
+                        if isinstance(x0, dict) and x0.get('k') == 'var' and x0['name'] == cur and h13.head_of(y, al) == (PRIV, 'idle_threads'):
+                            return True
+                return False
+            # (1a) the element this definition selects is the list head, or its thread object is taken (or kicked directly),
+            #      before the cursor moves on / the function returns
+            def used(e, cur=cur):
+                if derived_from(e, cur):
+                    return True
+                if is_kick_post(e):
+                    cb = h13.container_base(kick_base_raw(e))
+                    return cb is not None and (root_var(cb[1]) or {}).get('name') == cur
+                return False
+            def tr(e, s, cur=cur):
+                return True if (used(e) or var_def(e, cur)) else s
+            def ed(blk, si, s):
+                if s:
+                    return s
+                return True if h13.edge_all(blk, si, lambda atoms: at_end(blk, si, atoms)) else s
+            ev1 = h13.forward_from(g, d, False, tr, lambda a, b: a and b, edge=ed)
+            pts = [(e['_b'], e['_i']) for e in defs if strip(e['lhs'])['name'] == cur] + [exit_pt]
+            if not all(ev1.get(p, True) for p in pts):
+                okk, why = False, 'an element selected at %s is neither used for a kick nor the list head' % relpath(d['loc'])
+            # (2) the walk ends only at the list head
+            if d in firsts:
+                mp = h13.must(g, lambda e: False, excuse=at_end, start_event=d)
+                if not mp.get(exit_pt, True):
+                    okk, why = False, 'the walk started at %s can end before the cursor is back at &idle_threads' % relpath(d['loc'])
+        # (1b) every thread object taken from a cursor is kicked before the variable is reused / the function returns
+        for t in [e for e in g.events() if any(derived_from(e, c) for c in cursors)]:
+            tv = strip(t['lhs'])['name']
+            def kicked(e, tv=tv):
+                if not is_kick_post(e):
+                    return False
+                b = kick_base(e)
+                return isinstance(b, dict) and ((b.get('k') == 'var' and b['name'] == tv) or b.get('_was') == tv)
+            ev2 = h13.forward_from(g, t, False, lambda e, s, tv=tv: True if (kicked(e) or var_def(e, tv)) else s, lambda a, b: a and b)
+            pts = [(e['_b'], e['_i']) for e in g.events() if var_def(e, tv)] + [exit_pt]
+            if not all(ev2.get(p, True) for p in pts):
+                okk, why = False, 'the idle thread taken at %s is not kicked on every path' % relpath(t['loc'])
     ctx.ob('R-C13d', 'put:idle-workers-kicked', okk, loc=kicks[0]['loc'] if kicks else f.loc,
-           detail='every thread on the idle list is posted its kick inside the lock region', fn=f.q)
-    post = [e for e in f.events() if is_call(e, 'iv_event_post') and lm_arg(e, 0) == ('work_pool_priv', 'ev')]
-    okp = False
-    for b, blk in f.blocks.items():
-        if blk.term and blk.term.get('cond') is not None and len(blk.succ) == 2:
-            for si in (0, 1):
-                for (op, lc, rc, l, r) in norm_cond(blk.term['cond'], si == 0):
-                    if last_member(l) == ('work_pool_priv', 'started_threads') and op == '==' and rc == '0':
-                        mp = must_pass_from_block(f, blk.succ[si], lambda e: e in post)
-                        pts = [(pb, pi) for (pb, pi, _) in exits_of(f)] + [(f.exit, 0)]
-                        okp = all(mp.get(p, True) for p in pts)
-    ctx.ob('R-C13d', 'put:no-threads-posts-owner', okp, loc=post[0]['loc'] if post else f.loc,
-           detail='with no worker started the owner\'s pool event is posted so the pool is freed from the loop', fn=f.q)
-    pv = [e for e in f.events() if e['ev'] == 'store' and last_member(e['lhs']) == ('iv_work_pool', 'priv') and canon(e.get('rhs')) in ('NULL', '0')]
-    ctx.ob('R-C13d', 'put:handle-detached', bool(pv), loc=pv[0]['loc'] if pv else f.loc,
-           detail='this->priv = NULL: the caller may reuse the pool structure immediately', fn=f.q)
+           detail='every thread on the idle list is posted its kick inside the lock region%s' % ('' if okk else ': ' + why), fn=f.q)
+    # --- no worker: the owner frees the pool from its loop
+    mp_reg = h13.must(g, lambda e: is_sd(e), kill=unlock)
+    def excuse(blk, si, atoms):
+        return h13.atoms_nonzero(atoms, K_STARTED) and POOL in held(ls.get((blk.id, len(blk.events)))) \
+            and bool(mp_reg.get((blk.id, len(blk.events))))
+    mp = h13.must(g, is_pool_post, excuse=excuse)
+    post = [e for e in g.events() if is_pool_post(e)]
+    ctx.ob('R-C13d', 'put:no-threads-posts-owner', bool(mp.get(exit_pt)) and exit_pt in mp, loc=post[0]['loc'] if post else f.loc,
+           detail='the owner\'s pool event is posted on every path, except after deciding started_threads != 0 in the lock region that set shutting_down', fn=f.q)
+    # --- the handle is detached
+    isnull = lambda e: e['ev'] == 'store' and lvalue_steps(e['lhs']) == [('iv_work_pool', 'priv')] and e.get('op') == '=' and is_null(e.get('rhs'))
+    pv = [e for e in g.events() if isnull(e)]
+    mpn = h13.must(g, isnull, kill=lambda e: e['ev'] == 'store' and lvalue_steps(e['lhs']) == [('iv_work_pool', 'priv')] and not isnull(e))
+    ctx.ob('R-C13d', 'put:handle-detached', bool(pv) and bool(mpn.get(exit_pt)), loc=pv[0]['loc'] if pv else f.loc,
+           detail='this->priv = NULL on every path: the caller may reuse the pool structure immediately', fn=f.q)
+
+
+# --------------------------------------------------------------------------
+# R-C13e
+# --------------------------------------------------------------------------
+
+def _record_effect(e, record):
+    """does the event write, register, unlink or release (part of) an object of the record?"""
+    if e['ev'] == 'store':
+        l = strip(e['lhs'])
+        if isinstance(l, dict) and l.get('k') == 'var':
+            return False
+        return h13.mentions_record(e['lhs'], record)
+    if e['ev'] in ('call', 'enter') and e.get('callee') and e['ev'] == 'call':
+        if e['callee'] == 'pthr_join' or e['callee'] in h13.PURE_CALLS:
+            return False
+        return any(h13.mentions_record(a, record) for a in e.get('args', []))
+    return False
 
 
 def threads(ctx):
+    """Old: functions named iv_thread_died / iv_thread_destructor / iv_thread_create / iv_thread_allocate_key /
+    iv_thread_handler, three textual kinds of release.  Now roles: the spawn site is the call of pthr_create (in its
+    exported context), the OS-level body its function argument, the died handler what is installed in iv_thread.dead,
+    the destructor what is passed to pthr_key_create."""
     prog = ctx.prog
-    f = prog.fn('iv_thread_died')
-    join = [e for e in f.events() if is_call(e, 'pthr_join')]
-    if not join:
-        raise AnalysisBroken('iv_thread_died: join not found')
-    mp = must_pass(f, lambda e: e in join)
-    for what, pred in (('unlink', lambda e: is_call(e, ('iv_list_del', 'iv_list_del_init')) and lm_arg(e, 0) == ('iv_thread', 'list')),
-                       ('event-unregister', lambda e: is_call(e, 'iv_event_unregister') and lm_arg(e, 0) == ('iv_thread', 'dead')),
-                       ('free', lambda e: is_call(e, 'free') and strip(e['args'][0]).get('record') == 'iv_thread')):
-        evs = [e for e in f.events() if pred(e)]
-        ctx.ob('R-C13e', 'died:join-before-%s' % what, bool(evs) and all(mp.get((e['_b'], e['_i'])) for e in evs), loc=evs[0]['loc'] if evs else f.loc,
-               detail='pthr_join precedes the %s of the thread record' % what, fn=f.q)
-    d = prog.fn('iv_thread_destructor')
-    eff = [e for e in d.events() if (e['ev'] == 'store' and not (strip(e['lhs']).get('k') == 'var' and strip(e['lhs']).get('vk') == 'local'))
-           or (e['ev'] == 'call' and e.get('callee') not in ('fprintf',))]
-    ok = len(eff) == 1 and is_call(eff[0], 'iv_event_post') and lm_arg(eff[0], 0) == ('iv_thread', 'dead')
-    ctx.ob('R-C13e', 'destructor:only-posts', ok, loc=d.loc,
-           detail='the thread-exit destructor\'s only effect on shared state is posting the dead event: %s' % [describe(e) for e in eff], fn=d.q)
-    # creation: the record is linked and the dead event registered before the thread can die
-    c = prog.fn('iv_thread_create')
-    cr = [e for e in c.events() if is_call(e, 'pthr_create')]
-    reg = must_pass(c, lambda e: is_call(e, 'iv_event_register') and lm_arg(e, 0) == ('iv_thread', 'dead'))
-    ctx.ob('R-C13e', 'create:dead-event-registered-first', bool(cr) and all(reg.get((e['_b'], e['_i'])) for e in cr), loc=cr[0]['loc'] if cr else c.loc,
-           detail='the dead event (which keeps the creator\'s iv_main alive) is registered before the thread is created', fn=c.q)
-    # key destructor registered
-    k = prog.fn('iv_thread_allocate_key')
-    kc = [e for e in k.events() if is_call(e, 'pthr_key_create')]
-    ctx.ob('R-C13e', 'destructor:registered', bool(kc) and all(canon(e['args'][1]) == 'iv_thread_destructor' for e in kc), loc=k.loc,
-           detail='iv_thread_destructor is the thread key destructor, so it runs however the thread exits', fn=k.q)
-    h = prog.fn('iv_thread_handler')
-    sp = [e for e in h.events() if is_call(e, 'pthr_setspecific')]
-    body = [e for e in h.events() if e['ev'] == 'call' and last_member(e.get('fnexpr')) == ('iv_thread', 'start_routine')]
-    mps = must_pass(h, lambda e: e in sp)
-    ctx.ob('R-C13e', 'handler:key-set-before-body', bool(body) and all(mps.get((e['_b'], e['_i'])) for e in body), loc=h.loc,
-           detail='the thread key is set (arming the destructor) before the user routine runs', fn=h.q)
+    spawn = h13.contexts(prog, lambda e: is_call(e, 'pthr_create'), key='spawn')
+    if not spawn:
+        raise AnalysisBroken('thread creation site (pthr_create) not found')
+    died = h13.handlers_of(prog, ITHR, 'dead')
+    if not died:
+        raise AnalysisBroken('no handler is installed in iv_thread.dead')
+    # the OS-level thread functions and the thread-specific key they set to the thread record
+    def keyid(g, e, i=0):
+        v = root_var(e['args'][i]) if len(e.get('args', [])) > i else None
+        origin = prog.funcs.get(e.get('fn')) if e.get('fn') else g
+        return ((origin or g).file, v['name']) if v is not None else None
+    osbodies = []
+    for (root, g, sites) in spawn:
+        for s_ in sites:
+            h = h13.func_arg(prog, g, s_, 2)
+            if h is None:
+                raise AnalysisBroken('pthr_create: thread function is not a function name')
+            if h not in osbodies:
+                osbodies.append(h)
+    keys = set()
+    for h in osbodies:
+        hg = h13.ctx_of(prog, h)
+        for e in hg.events():
+            if is_call(e, 'pthr_setspecific') and len(e.get('args', [])) > 1 and h13.mentions_record(e['args'][1], ITHR):
+                keys.add(keyid(hg, e))
+    keys.discard(None)
+    if not keys:
+        raise AnalysisBroken('the created thread does not set a thread-specific key to its thread record')
+    keyc = []
+    for (root, g, sites) in h13.contexts(prog, lambda e: is_call(e, 'pthr_key_create'), key='keycreate'):
+        sites = [e for e in sites if keyid(g, e) in keys]
+        if sites:
+            keyc.append((root, g, sites))
+    if not keyc:
+        # the created thread stores its record under a key that no reachable code creates: no destructor can run
+        ctx.ob('R-C13e', 'destructor:registered', False, loc=osbodies[0].loc,
+               detail='the thread stores its record under key %s, but no entry point of the library creates that key (with an exit destructor)'
+                      % sorted(k[1] for k in keys), fn=osbodies[0].q)
+    # --- the creator's handler
+    for d in died:
+        g = h13.ctx_of(prog, d)
+        join = [e for e in g.events() if is_call(e, 'pthr_join')]
+        if not join:
+            raise AnalysisBroken('%s: join not found' % d.name)
+        mp = must_pass(g, lambda e: e in join)
+        effs = [e for e in g.events() if _record_effect(e, ITHR)]
+        kinds = (('unlink', lambda e: any(x.get('k') == 'member' and (x.get('record'), x.get('field')) == (ITHR, 'list') for x in walk(e.get('lhs') if e['ev'] == 'store' else e.get('args')))),
+                 ('event-unregister', lambda e: is_call(e, 'iv_event_unregister') and lm_arg(e, 0) == (ITHR, 'dead')),
+                 ('free', lambda e: is_obj_free(e, ITHR)))
+        for what, pred in kinds:
+            evs = [e for e in effs if pred(e)]
+            ctx.ob('R-C13e', 'died:join-before-%s' % what, bool(evs) and all(mp.get((e['_b'], e['_i'])) for e in evs), loc=evs[0]['loc'] if evs else d.loc,
+                   detail='pthr_join precedes the %s of the thread record' % what, fn=d.q)
+        rest = [e for e in effs if not any(p(e) for (_, p) in kinds)]
+        ctx.ob('R-C13e', 'died:join-before-any-other-effect', all(mp.get((e['_b'], e['_i'])) for e in rest), loc=rest[0]['loc'] if rest else d.loc,
+               detail='nothing else modifies or releases part of the thread record before pthr_join: %s' % sorted({describe(e) for e in rest}), fn=d.q)
+    # --- the exit destructor
+    dtors = []
+    for (root, g, sites) in keyc:
+        for e in sites:
+            t = h13.func_arg(prog, g, e, 1)
+            dtors.append((root, e, t))
+    for (root, e, t) in dtors:
+        if t is None:
+            ctx.ob('R-C13e', 'destructor:only-posts', False, loc=e['loc'], detail='the thread key is created without a destructor function', fn=root.q)
+            continue
+        g = h13.ctx_of(prog, t)
+        eff = [x for x in g.events() if h13.is_effect(x)]
+        isdead = lambda x: is_call(x, 'iv_event_post') and lm_arg(x, 0) == (ITHR, 'dead')
+        def trc(x, S):
+            return frozenset(min(c + 1, 2) for c in S) if isdead(x) else S
+        _, evc = forward(g, frozenset({0}), trc, lambda a, b: a | b)
+        cnt = evc.get((g.exit, 0), frozenset())
+        ok = bool(cnt) and all(c == 1 for c in cnt) and all(isdead(x) for x in eff)
+        ctx.ob('R-C13e', 'destructor:only-posts', ok, loc=t.loc,
+               detail='the thread-exit destructor posts the dead event exactly once on every path and has no other effect on shared state: %s'
+                      % sorted({describe(x) for x in eff}), fn=t.q)
+    # --- creation: dead event registered, destructor armed, before the thread exists
+    for (root, g, sites) in spawn:
+        reg = must_pass(g, lambda e: is_call(e, 'iv_event_register') and lm_arg(e, 0) == (ITHR, 'dead'),
+                        kill=lambda e: is_call(e, 'iv_event_unregister') and lm_arg(e, 0) == (ITHR, 'dead'))
+        hset = must_pass(g, lambda e: e['ev'] == 'store' and e.get('op') == '=' and lvalue_steps(e['lhs'])[:1] == [('iv_event', 'handler')]
+                         and (ITHR, 'dead') in lvalue_steps(e['lhs']) and
+                         any(strip(e['rhs']).get('name') == d.name and strip(e['rhs']).get('vk') == 'func' for d in died))
+        _agg(ctx, 'R-C13e', 'create:dead-event-registered-first', sites,
+             lambda e: bool(reg.get((e['_b'], e['_i']))) and bool(hset.get((e['_b'], e['_i']))),
+             'the dead event (which keeps the creator\'s iv_main alive) has its join handler and is registered before the thread is created', root, g)
+        def arms(e):
+            if is_call(e, 'pthr_key_create'):
+                return keyid(g, e) in keys
+            if is_call(e, 'pthr_once'):
+                t = h13.func_arg(prog, g, e, 1)
+                if t is None:
+                    return False
+                tg = h13.ctx_of(prog, t)
+                return any(is_call(x, 'pthr_key_create') and keyid(tg, x) in keys for x in tg.events())
+            return False
+        armed = must_pass(g, arms)
+        _agg(ctx, 'R-C13e', 'destructor:registered', sites,
+             lambda e: bool(armed.get((e['_b'], e['_i']))) and all(t is not None for (_, _, t) in dtors),
+             'the thread key with its exit destructor is created before any thread is, so the destructor runs however the thread exits', root, g)
+        # --- the OS-level thread body arms the destructor before the user routine
+        for s in sites:
+            h = h13.func_arg(prog, g, s, 2)
+            if h is None:
+                raise AnalysisBroken('pthr_create: thread function is not a function name')
+            hg = h13.ctx_of(prog, h)
+            sp = [e for e in hg.events() if is_call(e, 'pthr_setspecific') and keyid(hg, e) in keys
+                  and h13.mentions_record(e['args'][1], ITHR)]
+            body = [e for e in hg.events() if e['ev'] == 'call' and last_member(e.get('fnexpr')) == (ITHR, 'start_routine')]
+            mps = must_pass(hg, lambda e: e in sp)
+            ctx.ob('R-C13e', 'handler:key-set-before-body', bool(body) and all(mps.get((e['_b'], e['_i'])) for e in body), loc=h.loc,
+                   detail='the thread key is set to the thread record (arming the destructor) before the user routine runs', fn=h.q)
